@@ -37,7 +37,18 @@ func yield() {
 
 // Y is a cooperative scheduling point inserted by the build overlay into
 // code that takes no locks (simgen rule "yields").
-func Y() { yield() }
+func Y() {
+	if h := HookY; h != nil {
+		var pcs [1]uintptr
+		if runtime.Callers(2, pcs[:]) == 1 {
+			h(pcs[0])
+		}
+	}
+}
+
+// HookY, when set, is called at every inserted scheduling point with the
+// caller's PC.  It may sleep (fake time).
+var HookY func(pc uintptr)
 
 func pick(n int) int {
 	if p := Pick; p != nil && n > 1 {
